@@ -7,6 +7,7 @@ import Lean.Data.Json
 import Simfile.Gen.Tables
 import Simfile.Model.Str
 import Simfile.Model.Beat
+import Simfile.Model.BeatArith
 import Simfile.Model.Objects
 import Simfile.Model.Notes
 import Simfile.Model.Group
@@ -235,6 +236,12 @@ def getVOp (j : Json) : R VOp := do
   | [Json.str "popitem"] => pure .popitem
   | [Json.str "update", k, v] => pure (.update (← getStr k) (← getStr v))
   | _ => throw "bad view op"
+def getVOpX (j : Json) : R VOpX := do
+  match (← j.getArr?).toList with
+  | [Json.str "clear"] => pure .clear
+  | [Json.str "setdefault", k, v] => pure (.setDefault (← getStr k) (← getStr v))
+  | [Json.str "move_to_end", k, l] => pure (.moveToEnd (← getStr k) (← getBool l))
+  | _ => pure (.base (← getVOp j))
 def jVOut : VOut → Json
   | .value v => Json.arr #[Json.str "value", jOptStr v]
   | .done => Json.arr #[Json.str "done"]
@@ -289,6 +296,26 @@ def handle (j : Json) : R Json := do
   | "beat.str" => pure (jStr (beatToStr (← getRat (← field j "x"))))
   | "beat.from_str" => pure (match beatFromStr (← getStr (← field j "s")) with | some q => jRat q | none => Json.null)
   | "beat.parse_decimal" => pure (match parseDecimal (← getStr (← field j "s")) with | some q => jRat q | none => Json.null)
+  | "beat.arith" =>
+    -- Beat's operator wrappers: f ∈ add sub mul truediv mod (r… = reflected) divmod floordiv neg abs pow; null = ZeroDivisionError
+    let a ← getRat (← field j "a")
+    let f ← getStr (← field j "f")
+    let opOf : Str → Option ArithM.Op := fun s =>
+      if s = "add".toList then some .add else if s = "sub".toList then some .sub else if s = "mul".toList then some .mul
+      else if s = "truediv".toList then some .truediv else if s = "mod".toList then some .mod else none
+    let jO : Option Rat → Json := fun o => match o with | some q => jRat q | none => Json.null
+    if f = "neg".toList then pure (jRat (ArithM.beatNeg a))
+    else if f = "abs".toList then pure (jRat (ArithM.beatAbs a))
+    else if f = "pow".toList then pure (jO (ArithM.beatPowInt a (← getInt (← field j "n"))))
+    else
+      let b ← getRat (← field j "b")
+      if f = "divmod".toList then
+        pure (match ArithM.beatDivmod a b with | some (q, r) => Json.arr #[jInt q, jRat r] | none => Json.null)
+      else if f = "floordiv".toList then
+        pure (match ArithM.beatFloorDiv a b with | some q => jInt q | none => Json.null)
+      else match f with
+        | 'r' :: rest => (match opOf rest with | some op => pure (jO (ArithM.beatRBin op a b)) | none => throw "bad arith op")
+        | _ => (match opOf f with | some op => pure (jO (ArithM.beatBin op a b)) | none => throw "bad arith op")
   | "beat.mod" => pure (jRat (pyMod (← getRat (← field j "a")) (← getRat (← field j "b"))))
   | "beat.floordiv" => pure (jInt (floorDiv (← getRat (← field j "a")) (← getRat (← field j "b"))))
   | "beat.values_from_str" =>
@@ -402,7 +429,7 @@ def handle (j : Json) : R Json := do
       (← (if st.isNull then pure none else do pure (some (← getAny st))))
       (← (if ct.isNull then pure none else do pure (some (← getChartPair ct)))) beh))
   | "views.run" =>
-    let (d, outs) := vrun (← getKind (← field j "kind")) (← getDict (← field j "d")) (← getArr getVOp (← field j "ops"))
+    let (d, outs) := vrunX (← getKind (← field j "kind")) (← getDict (← field j "d")) (← getArr getVOpX (← field j "ops"))
     pure (Json.mkObj [("d", jDict d), ("outs", jArr jVOut outs)])
   | "dir.scan" =>
     pure (match scanDir (← getArr getStr (← field j "listing")) (← getBool (← field j "ignore_duplicate")) with
